@@ -308,6 +308,10 @@ _amend('C18', 'Undecided multiple paths of unsigned 32- / 64-bit types are refut
 _amend('C19', 'The lowp vec3 specialisation of convertLinearToSRGB is the published root approximation c1 x^(1/2) + c2 x^(1/4) - c3 x^(1/8) - c4 x per component (constants as cited, s(1) = 1); its accuracy against the exact curve is not re-derived.')
 _amend('C10', 'Narrowing: a conversion to a narrower float format inside the term of a double result (a double value stored in a float temporary) refutes the entry - the normal forms read float arithmetic as exact and would not see it. The same test runs in the polynomial rules of C02 and in every rule built on spec.compare.')
 _amend('C14', 'A step term that is not a next-after chain on the component is evaluated exactly at sample values and refuted when it is not the n-th neighbour in the component\'s own format.')
+_amend('C09', 'decompose(): conditioning of the quaternion extraction (structural): a comparison that guards sqrt(trace + 1) by a lower bound c on the trace must have c >= -3/4 (divisor at least 1/2; the reference uses 0). Necessary condition only - the accuracy of recompose(decompose(M)) is not bounded.')
+_amend('C14', 'The overloads that take one step count per component (a vector of ints) are analysed like the (vec, int) ones.')
+_amend('C05', 'A bitfieldReverse lane that is not a pure bit function is evaluated at the one-hot patterns, all ones and a mixed pattern.')
+_amend('C03', 'The class-A / class-B witnesses evaluate CVTTPS2DQ / CVTPS2DQ as the SDM defines them (integer indefinite for NaN and out-of-range values), so SSE2 arms built on the integer conversion can be separated from the pure build at explicit inputs.')
 _amend('C02', 'scalar + matrix and scalar - matrix (square shapes only) are part of the element-wise rule set.')
 _amend('C18', 'bitfieldInterleave: a result bit that is not a plain selection of an operand bit is evaluated at the one-hot input that should set only that bit.')
 _amend('C11', 'modf that is not the library call is evaluated at -3, -0, +-inf and +-2.5: both parts carry the sign of x and the fraction of an infinity is a zero.')
